@@ -158,9 +158,14 @@ class Session:
         self.writers = []
         self.refuse = int(spec.get("refuse", 0))
         self.nopen = 0
+        self.alarmed = []
 
     def ev(self, e):
         self.events.append(e)
+        if len(self.events) > 250000:      # a client spinning without yielding: stop it, report a hang
+            self.alarmed.append("events")
+            del self.events[:-200]
+            raise SessionTimeout()
 
     async def open(self, *a, **kw):
         self.nopen += 1
@@ -475,17 +480,23 @@ async def _reader_session(spec, sess):
 RUNNERS = {"rx": _rx_session, "tx": _tx_session, "reader": _reader_session}
 
 
-def run_session(spec, wall_s=20):
+def run_session(spec, wall_s=12):
     """Run one session on a fresh virtual loop (worker process only)."""
     sess = Session(spec)
     loop = VirtualLoop()
     asyncio.set_event_loop(loop)
 
+    alarmed = sess.alarmed
+
     def on_alarm(signum, frame):
+        # raised inside whatever is running: a task that spins without yielding dies with it, the
+        # session may then even complete; the flag makes sure it is still reported as a hang
+        alarmed.append(True)
         raise SessionTimeout()
 
     signal.signal(signal.SIGALRM, on_alarm)
     signal.alarm(int(wall_s))
+    res = None
     try:
         res = loop.run_until_complete(RUNNERS[spec["mode"]](spec, sess))
     except SessionTimeout:
@@ -496,6 +507,9 @@ def run_session(spec, wall_s=20):
         res = {"error": repr(e), "tb": traceback.format_exc()[-1500:], "events": sess.events[-200:]}
     finally:
         signal.alarm(0)
+        if alarmed and not (isinstance(res, dict) and res.get("hang")):
+            res = {"hang": True, "events": sess.events[-200:], "nevents": len(sess.events),
+                   "bytelog": [[w, i, b.hex()] for (w, i, b) in sess.bytelog]}
         try:
             for t in asyncio.all_tasks(loop):
                 t.cancel()
@@ -515,7 +529,7 @@ def worker_main():
     sys.dont_write_bytecode = True
     jobs = json.load(sys.stdin)
     for k, spec in enumerate(jobs):
-        res = run_session(spec, wall_s=spec.get("wall_s", 20))
+        res = run_session(spec, wall_s=spec.get("wall_s", 12))
         sys.stdout.write(json.dumps({"k": k, "res": res}) + "\n")
         sys.stdout.flush()
 
@@ -547,7 +561,7 @@ def _run_batch(jobs, repo, timeout):
     return res
 
 
-def run_jobs(jobs, repo=None, nproc=3, per_job_s=20):
+def run_jobs(jobs, repo=None, nproc=3, per_job_s=12):
     """Run the session specs in <= nproc worker subprocesses, each under a wall-clock watchdog."""
     from concurrent.futures import ThreadPoolExecutor
     if repo is None:
